@@ -6,7 +6,7 @@
 (* sorted stably with respect to such a matrix.  Nothing here fixes how values of different    *)
 (* types rank against each other - the property does not.                                      *)
 (* Mechanism level: CmpModel, the order the code documents (type name, then length, then keys, *)
-(* then values; NaN and +-inf rank as +inf), checked against the axioms by MC_Order.           *)
+(* then values; NaN ranks above +inf), checked against the axioms by MC_Order.                   *)
 EXTENDS Values, TLC
 
 Raised == 9
@@ -19,10 +19,10 @@ StrOrder == <<"", "B", "a", "ab", "abc", "b", "ba", "j", "k", "xyz">>
 StrIdx(s) == CHOOSE i \in 1..Len(StrOrder) : StrOrder[i] = s
 StrCmp(s, t) == Sign(StrIdx(s) - StrIdx(t))
 DateCmp(a, b) == IF a[1] # b[1] THEN Sign(a[1] - b[1]) ELSE IF a[2] # b[2] THEN Sign(a[2] - b[2]) ELSE Sign(a[3] - b[3])
-\* numbers on the extended line; pyg ranks NaN *and both infinities* as +inf
-IsTop(v) == Tag(v) \in {"nan", "inf"}
-NumCmp(u, v) == IF IsTop(u) THEN (IF IsTop(v) THEN 0 ELSE 1)
-                ELSE IF IsTop(v) THEN -1
+\* numbers on the extended line: -inf < finite numbers < +inf < NaN (all NaN objects rank equal)
+NumClass(v) == IF IsNaN(v) THEN 3 ELSE IF IsInf(v) THEN (IF Pay(v) > 0 THEN 2 ELSE 0) ELSE 1
+NumCmp(u, v) == IF NumClass(u) # NumClass(v) THEN Sign(NumClass(u) - NumClass(v))
+                ELSE IF NumClass(u) # 1 THEN 0
                 ELSE IF RatLt(Rat(u), Rat(v)) THEN -1 ELSE IF RatLt(Rat(v), Rat(u)) THEN 1 ELSE 0
 IsNumber(v) == Tag(v) \in {"i", "f", "nan", "inf"}      \* bools are a type of their own for cmp
 
